@@ -261,10 +261,14 @@ def build(run):
                 u[i] * w[i], u[j] * w[j], A[i, i], A[0, 1], ufl.FacetNormal(m)[0],
                 # literals that a comparator could conflate: same real part, repr order != numeric order, sign, int vs float
                 C.ComplexValue(1 + 2j), C.ComplexValue(1 - 2j), C.ComplexValue(0.5 + 1j), C.IntValue(9), C.IntValue(10), C.IntValue(-2),
-                C.FloatValue(-0.5), C.FloatValue(2.5)]
+                C.FloatValue(-0.5), C.FloatValue(2.5),
+                # floats that agree in their first 15, 16 significant digits (distinct doubles are distinct operands), very large / small magnitudes
+                C.FloatValue(0.1 + 0.2), C.FloatValue(0.3), C.FloatValue(1.0000000000000002), C.FloatValue(1.0000000000000004), C.FloatValue(1e-300), C.FloatValue(1.0000000000000002e-300),
+                C.FloatValue(123456789012345.67), C.FloatValue(123456789012345.69)]
         # arguments that differ only in their part (blocks of a MixedFunctionSpace) or only in their number
         scal += [C.Argument(V, 3, 0), C.Argument(V, 3, 1), C.Argument(V, 4, 0), C.Argument(V, 2, None), C.Argument(V, 3, 2)]      # (one number: parts all None or all int)
-        zf = [C.Product(C.ComplexValue(1 + 2j), f), C.Product(C.ComplexValue(1 - 2j), f), C.Product(C.IntValue(9), g), C.Product(C.IntValue(10), g)]
+        zf = [C.Product(C.ComplexValue(1 + 2j), f), C.Product(C.ComplexValue(1 - 2j), f), C.Product(C.IntValue(9), g), C.Product(C.IntValue(10), g),
+              C.Product(C.FloatValue(0.1 + 0.2), f), C.Product(C.FloatValue(0.3), f), C.Product(C.FloatValue(1.0000000000000002), v), C.Product(C.FloatValue(1.0000000000000004), v)]
         open_idx = [A[i, 0], A[j, 1], A[i, 1], A[0, i], A[1, j], u[i], w[j]]       # operands with free indices: differ in a fixed index after / before a free one
         lvl1 = list(zf)
         for a, b in itertools.product(scal[:9], repeat=2):
